@@ -135,7 +135,11 @@ func (f *Filter) Filter(subject any) {
 
 	case *structs.IndexedExportedServiceList:
 		for peer, peerServices := range v.Services {
-			v.ResultsFilteredByACLs = f.filterServiceList(&peerServices)
+			// Removal for any peer marks the whole result as filtered; do not
+			// let a later peer without removals reset the flag.
+			if f.filterServiceList(&peerServices) {
+				v.ResultsFilteredByACLs = true
+			}
 			if len(peerServices) == 0 {
 				delete(v.Services, peer)
 			} else {
